@@ -144,6 +144,9 @@ type RunOpts struct {
 	EpochOffset int64
 	// ReuseLinter makes the repeated executions use one Linter instance (library APIs only).
 	ReuseLinter bool
+	// PriorRepo, with ReuseLinter, makes the Linter instance lint that repository
+	// (LintRepository) before the run proper: another history of the same instance.
+	PriorRepo string
 	// After, when set, runs inside the simulation after the lint returned.
 	After func()
 }
@@ -190,6 +193,11 @@ func RunLint(w *World, c *Chooser, o RunOpts) *LintResult {
 		var shared *sharedLinter
 		if o.ReuseLinter && w.API != APIMain {
 			shared = &sharedLinter{}
+		}
+		if shared != nil && o.PriorRepo != "" {
+			pw := *w
+			pw.API, pw.Files = APIRepo, []string{o.PriorRepo}
+			lintOnce(&pw, &LintResult{}, shared)
 		}
 		for i := 0; i < rep; i++ {
 			lintOnce(w, res, shared)
